@@ -23,23 +23,23 @@ import (
 )
 
 type c05Outcome struct {
-	OK     bool   `json:"ok"`
-	MsgLen int    `json:"msg_len"`
-	MsgCls string `json:"msg_cls"`
+	OK      bool   `json:"ok"`
+	MsgLen  int    `json:"msg_len"`
+	MsgCls  string `json:"msg_cls"`
 	Err     bool   `json:"err"`
 	DelayMS int    `json:"callback_ms,omitempty"`
 	msg     string
 }
 
 type c05Conn struct {
-	Kind    string   `json:"kind"`
-	Stream  []byte   `json:"-"`
-	Len     int      `json:"stream_bytes"`
-	Chunks  []int    `json:"chunks"`
-	PauseUS []int    `json:"pause_us"`
-	End     string   `json:"end"` // close | half-close | wait
-	Out     c05Outcome `json:"outcome"`
-	fields  [4]string
+	Kind     string     `json:"kind"`
+	Stream   []byte     `json:"-"`
+	Len      int        `json:"stream_bytes"`
+	Chunks   []int      `json:"chunks"`
+	PauseUS  []int      `json:"pause_us"`
+	End      string     `json:"end"` // close | half-close | wait
+	Out      c05Outcome `json:"outcome"`
+	fields   [4]string
 	complete bool
 }
 
@@ -212,6 +212,8 @@ func runC05Case(t *rapid.T, conns []c05Conn) {
 			reply   []byte
 			readErr error
 			infra   string
+			// the client kept its sending side open, saw end-of-stream, and a later write was still taken by the peer
+			openAfterEOF bool
 		}
 		res := make([]result, len(conns))
 		var wg sync.WaitGroup
@@ -245,16 +247,19 @@ func runC05Case(t *rapid.T, conns []c05Conn) {
 				if len(data) > 0 {
 					conn.Write(data)
 				}
+				sendingSideOpen := true
 				switch c.End {
 				case "close":
 					return
 				case "half-close":
 					conn.CloseWrite()
+					sendingSideOpen = false
 				case "wait":
 					// without more input an incomplete stream would never be answered: that is the client's choice, not a
 					// server failure, so an incomplete stream is half-closed as well
 					if _, _, ok := vlib.RefDecodeParts(c.Stream, 4); !ok && !earlyError(c.Stream) {
 						conn.CloseWrite()
+						sendingSideOpen = false
 					}
 				}
 				conn.SetReadDeadline(time.Now().Add(30 * time.Second))
@@ -264,6 +269,14 @@ func runC05Case(t *rapid.T, conns []c05Conn) {
 				if errors.Is(res[i].readErr, syscall.ECONNRESET) {
 					res[i].readErr = nil
 					vlib.Class("close-seen-as-ECONNRESET(unread client bytes)")
+				} else if res[i].readErr == nil && sendingSideOpen {
+					// "closes the connection": end-of-stream must come from a close, not from a shutdown of the sending
+					// side only. After a close, a write on a unix stream socket fails with EPIPE at once.
+					_, w1 := conn.Write([]byte{0})
+					time.Sleep(time.Millisecond)
+					_, w2 := conn.Write([]byte{0})
+					res[i].openAfterEOF = w1 == nil && w2 == nil
+					vlib.Class("close-probed-by-write-after-EOF")
 				}
 			}(i)
 		}
@@ -309,6 +322,9 @@ func runC05Case(t *rapid.T, conns []c05Conn) {
 				r := res[i].reply
 				if res[i].readErr != nil {
 					t.Fatalf("VIOLATION C05: no clean reply+EOF from the server: %v (%d bytes read); %s", res[i].readErr, len(r), ctx)
+				}
+				if res[i].openAfterEOF {
+					t.Fatalf("VIOLATION C05: the server signalled end of stream after its reply but did not close the connection (two later writes by the client were still accepted); %s", ctx)
 				}
 				if len(r) < 2 || int(r[0])<<8|int(r[1]) != len(r)-2 {
 					t.Fatalf("VIOLATION C05: the server did not send exactly one length-prefixed reply: got %d bytes %x..; %s", len(r), head(r), ctx)
